@@ -21,7 +21,7 @@ RULE = ('strings from (a) renderings of grammar ASTs and generated function call
         'raises ElementPathError with an err:XXXXnnnn code; evaluation returns or raises ElementPathError; any other '
         'exception is bucketed by type + innermost elementpath frame. histories: one long-lived parser per version parses a '
         'generated sequence of failing/succeeding strings; after each step its cursor state is reset and tree/source/'
-        'error equal those of a fresh parser. non-trivial = the string is rejected or raises, or mixes >= 2 operator '
+        'error/value equal those of a fresh parser (sampled histories + the complete reusegrid). non-trivial = the string is rejected or raises, or mixes >= 2 operator '
         'kinds; a history is non-trivial when a successful parse follows a failed one. distinct by version + string '
         '(+ context/API).')
 ASSUMPTIONS = [
@@ -49,6 +49,12 @@ FLOORS = {
     'mutated:evaluated': (0.05, 'expr:src-mutated'),
     'random:parse-error': (0.50, 'expr:src-random'),
     'reuse:ok-after-fail': (0.50, 'reuse:history'),
+    'reusegrid:ok-after-fail': (0.90, 'reusegrid:history'),
+    'nsgrid:parse-error': (0.50, 'expr:src-nsgrid'),
+    'nsgrid:evaluated': (0.01, 'expr:src-nsgrid'),
+    'regexgrid:evaluated': (0.10, 'expr:src-regexgrid'),
+    'regexgrid:parse-error': (0.05, 'expr:src-regexgrid'),
+    'regexgrid:eval-error': (0.05, 'expr:src-regexgrid'),
 }
 
 VERS = X.VERSIONS
@@ -123,7 +129,7 @@ def _variables(ver):
     return dict(v)
 
 
-def make_context(ver, kind):
+def make_context(ver, kind, extra_vars=None):
     """-> (XPathContext or None, root object for the module-level API)"""
     from elementpath import XPathContext
     if kind == 'none':
@@ -131,6 +137,8 @@ def make_context(ver, kind):
     lib = 'lxml' if kind == 'lxml' else 'et'
     root, tree = _etree_doc(lib)
     variables = _variables(ver)
+    if extra_vars:
+        variables.update(extra_vars)
     if kind == 'doc':
         return XPathContext(tree, variables=variables), tree
     if kind in ('root', 'lxml'):
@@ -195,7 +203,7 @@ def _esc(exc, s, phase):
     return Disc(escape_bucket('C03', exc), 'ElementPathError or a value', repr(exc)[:300], f'{phase}: {s!r}'), 'escape'
 
 
-def judge_string(ver, s, ctxkind, api, rec=None, source='?'):
+def judge_string(ver, s, ctxkind, api, rec=None, source='?', extra_vars=None):
     from elementpath.exceptions import ElementPathError
     import elementpath
     discs = []
@@ -225,7 +233,7 @@ def judge_string(ver, s, ctxkind, api, rec=None, source='?'):
     if tok is not None:
         outcome = 'parsed'
         try:
-            ctx, root = make_context(ver, ctxkind)
+            ctx, root = make_context(ver, ctxkind, extra_vars)
 
             def run():
                 if api == 'evaluate':
@@ -279,21 +287,48 @@ def judge_string(ver, s, ctxkind, api, rec=None, source='?'):
 def judge_batch(case, rec=None, source='?'):
     out = []
     for it in case['items']:
-        out += judge_string(case['ver'], it['s'], it['ctx'], it['api'], rec, source)
+        out += judge_string(case['ver'], it['s'], it['ctx'], it['api'], rec, source, it.get('vars'))
     return out
 
 
 # --------------------------------------------------------------------------
 # parser reusability histories
 # --------------------------------------------------------------------------
-def _parse_outcome(p, s):
+def _vrepr(v, depth=0):
+    """type-tagged text of an XDM value (for comparing a long-lived parser with a fresh one)"""
+    if depth > 5:
+        return '...'
+    if isinstance(v, list):
+        return '[' + ', '.join(_vrepr(x, depth + 1) for x in v) + ']'
+    tn = type(v).__name__
+    if hasattr(v, 'position') and hasattr(v, 'parent'):
+        return f'{tn}@{v.position}'
+    if hasattr(v, 'nargs'):
+        try:
+            return f'{tn}:{v.symbol}:{len(v._items)}:{v.source}'
+        except Exception:
+            return f'{tn}:{getattr(v, "symbol", "?")}'
+    if hasattr(v, 'symbol'):
+        return f'{tn}:{v.symbol}'          # a token object (placeholder, ...)
+    try:
+        r = repr(v)
+    except Exception:
+        return tn
+    return tn if ' at 0x' in r else f'{tn}:{r}'
+
+
+_NONDETERMINISTIC = re.compile(r'current-|random|generate-id|implicit-timezone|environment')
+
+
+def _parse_outcome(p, s, ver=None):
+    """outcome of parse (+ evaluation on the element context when ver is given) as a JSON-able list"""
     from elementpath.exceptions import ElementPathError
     try:
         st_, t = guarded(lambda: p.parse(s))
         if st_ == 'timeout':
             return ['timeout']
         try:
-            return ['tree', t.tree, t.source]
+            out = ['tree', t.tree, t.source]
         except Exception as e:
             return ['tree-unprintable', type(e).__name__]
     except ElementPathError as e:
@@ -302,6 +337,30 @@ def _parse_outcome(p, s):
         return ['exc', 'RecursionError']
     except Exception as e:
         return ['exc', type(e).__name__, str(e)[:200]]
+    if ver is not None and not _NONDETERMINISTIC.search(s):
+        try:
+            ctx, _root = make_context(ver, 'root')
+            st_, v = guarded(lambda: t.evaluate(ctx))
+            out.append('timeout' if st_ == 'timeout' else 'value ' + _vrepr(v))
+        except ElementPathError as e:
+            out.append(f'error {e.code}')
+        except Exception as e:
+            out.append('exc ' + type(e).__name__)
+    return out
+
+
+_FRESH: dict = {}
+
+
+def _fresh_outcome(ver, s):
+    """outcome of a fresh parser (a pure function of version and string: cached per process)"""
+    key = (ver, s)
+    o = _FRESH.get(key)
+    if o is None:
+        o = _FRESH[key] = _parse_outcome(new_parser(ver), s, ver)
+        if len(_FRESH) > 20000:
+            _FRESH.clear()
+    return o
 
 
 def _state_problems(p):
@@ -342,7 +401,7 @@ def _attr_diff(p, fresh):
     return diff
 
 
-def judge_reuse(case, rec=None):
+def judge_reuse(case, rec=None, tag='reuse'):
     ver = case['ver']
     discs = []
     long = new_parser(ver)
@@ -350,11 +409,13 @@ def judge_reuse(case, rec=None):
     n_fail = n_ok = resync = 0
     leaked = set()
     for i, s in enumerate(case['steps']):
-        got = _parse_outcome(long, s)
-        fresh = new_parser(ver)
-        want = _parse_outcome(fresh, s)
+        got = _parse_outcome(long, s, ver)
+        want = _fresh_outcome(ver, s)
         probs = _state_problems(long)
-        attrs = _attr_diff(long, new_parser(ver))
+        ref = _CACHE.get(('refparser', ver))
+        if ref is None:
+            ref = _CACHE[('refparser', ver)] = new_parser(ver)      # never used for parsing
+        attrs = _attr_diff(long, ref)
         if got[0] == 'error' or got[0] == 'exc':
             n_fail += 1
         elif got[0] == 'tree':
@@ -382,14 +443,14 @@ def judge_reuse(case, rec=None):
             leaked = set()
             resync += 1
     if rec is not None:
-        classes = ['reuse:history', f'reuse:ver-{ver}']
+        classes = [f'{tag}:history', f'{tag}:ver-{ver}']
         if ok_after_fail:
-            classes.append('reuse:ok-after-fail')
+            classes.append(f'{tag}:ok-after-fail')
         if resync:
-            rec.cls('reuse:resync', resync)
-        rec.cls('reuse:steps', len(case['steps']))
-        rec.cls('reuse:failing-steps', n_fail)
-        rec.case([ver, case['steps']], nontrivial=ok_after_fail, sample={'check': 'reuse', 'ver': ver, 'steps': case['steps'][:6]},
+            rec.cls(f'{tag}:resync', resync)
+        rec.cls(f'{tag}:steps', len(case['steps']))
+        rec.cls(f'{tag}:failing-steps', n_fail)
+        rec.case([ver, case['steps']], nontrivial=ok_after_fail, sample={'check': tag, 'ver': ver, 'steps': case['steps'][:6]},
                  classes=classes)
     return discs
 
@@ -397,7 +458,14 @@ def judge_reuse(case, rec=None):
 # --------------------------------------------------------------------------
 # strategies
 # --------------------------------------------------------------------------
-EXHAUSTIVE_NOTE = ('sub-checks callgrid and opgrid are complete enumerations: every registered function of a parser version x '
+EXHAUSTIVE_NOTE = ('sub-checks reusegrid (every source prefix that ends right after a construct holding temporary parser state - arrow '
+                   'with every proxy-resolved name, comments, lookup, map/array constructors, sequence types, calls, paths, flow '
+                   'expressions: 32/68/87/284 prefixes per version - x 26 tokenizer-level failures, each followed by 3 ordinary '
+                   'expressions on the same parser, compared with a fresh parser on tree, source and value: 12 246 histories), '
+                   'nsgrid (every local function name registered in any namespace x 17 ways of qualifying it x call/0-2 args, '
+                   'name#0-2, arrow specifier: 54 708 strings on 3.0/3.1) and regexgrid (replace/tokenize/matches/analyze-string x '
+                   '26 backslash/dollar/brace strings per string argument x 11 flag values, constant and through $variables: '
+                   '55 276 calls) are complete enumerations, as are callgrid and opgrid: every registered function of a parser version x '
                    'every legal arity <= 2 x every combination of 11-20 representative arguments (3 arguments over 6-8 values), '
                    'and every operator form of the version x every combination of 14-25 representative operands, each '
                    'evaluated on the element context')
@@ -575,6 +643,126 @@ def op_grid(ver):
             yield f'[({a})](1)'
 
 
+# ---- reuse grid: every construct that holds parser state x every tokenizer-level failure right after it -------------
+PROBES = ['abs(-1)', 'count((1, 2, 3))', "string-length('abc') + 1", "concat('a', 'b')", 'reverse((1, 2))', '(: c :) 1 + 1',
+          'a[1]/text()']
+PROBES_31 = ['(3, 1) => sort()', "map{1: 'x'}?1", '[1, 2]?2', '1 instance of xs:integer+']
+TOKEN_FAILURES = ['(: an unterminated comment', '"unterminated', "'unterminated", '.5.5', '1e', '1.2.3', '~', '`', '%', '\\', '\x00',
+                  '(: a (: nested :)', ':)', '(::', '}', ']', ')', '#', '', '1 1', '(: c', '\u2028', '{', '::', '$', '@']
+PROXY_CANDIDATES = ['reverse', 'head', 'tail', 'sort', 'contains', 'size', 'get', 'put', 'merge', 'remove', 'join', 'filter',
+                    'flatten', 'for-each', 'fold-left', 'exp', 'pi', 'sqrt', 'append', 'subarray', 'insert-before', 'keys',
+                    'entry', 'find', 'for-each-pair', 'fold-right', 'string', 'boolean', 'data', 'abs', 'count', 'concat', 'QName',
+                    'dateTime', 'date', 'integer', 'empty', 'exists', 'trace', 'error', 'position', 'last', 'name', 'lang', 'id']
+
+
+def proxy_names(ver):
+    """local names whose token class is a ProxyToken in this version (generation only)"""
+    key = ('proxy', ver)
+    v = _CACHE.get(key)
+    if v is None:
+        from elementpath.xpath_tokens import ProxyToken
+        st_ = new_parser(ver).symbol_table
+        v = _CACHE[key] = sorted(k for k, c in st_.items() if isinstance(c, type) and issubclass(c, ProxyToken)
+                                 and re.match(r'^[A-Za-z][\w\-]*$', k))
+    return v
+
+
+def state_prefixes(ver):
+    """source prefixes that end right after a construct during which the parser holds temporary state"""
+    out = []
+    if ver >= '3.1':
+        names = sorted(set(proxy_names(ver)) | set(PROXY_CANDIDATES))
+        for n in names:
+            out += [f'(1, 2, 3) => {n} ', f'$s => {n} ( ', f'x => {n} ( 1 , ']
+        out += ['1 => $f ', '1 => ( abs#1 ) ', '1 => fn:abs ', '1 => math:exp ', '1 => array:size ', '1 => map:size ',
+                '1 => Q{http://www.w3.org/2005/xpath-functions}abs ', '1 => nope ', '1 => p:f ', '1 => abs ( ) => ', '1 => ',
+                '$m ? ', '$m ?( ', '? ', '$m ? a ? ', '[1] ( ', 'map { ', 'map { 1 : ', 'map { 1 : 2 , ', '[ 1 , ', '[ ', 'array { ',
+                'array { 1 , ', '1 instance of map( ', '1 instance of map( xs:string , ', '1 instance of array( ',
+                '1 treat as array( xs:integer ', 'map:size ( ', 'array:size ( ']
+    if ver >= '3.0':
+        out += ['function ( ', 'function ( $x ', 'function ( $x as ', 'function ( $x ) as ', 'function ( $x ) { ', 'abs # ', 'fn:abs # ',
+                'Q{ ', 'Q{u} ', 'Q{u}f ( ', 'let $x := ', 'let $x := 1 return ', '1 ! ', "'a' || ", '$f ( ', '$f ( 1 , ',
+                '1 instance of function( ', 'math:pi ( ', 'math:exp ( 1 ']
+    if ver >= '2.0':
+        out += ['1 (: c :) ', '1 + (: c :) ', 'abs (: c :) ', 'abs (: c :) ( ', 'fn:abs ( ', 'fn : ', 'xs:integer ( ', 'xs:date ( ',
+                '1 instance of ', '1 instance of node() ', '1 instance of element( ', '1 instance of element( a , ',
+                '1 instance of attribute( ', '1 instance of document-node( ', '1 treat as ', '1 cast as ', '1 cast as xs:integer ',
+                '1 castable as ', 'for $x in ', 'for $x in 1 return ', 'for $x in 1 , $y in ', 'some $x in 1 satisfies ',
+                'every $x in ', 'if ( ', 'if ( 1 ) then ', 'if ( 1 ) then 2 else ', '( 1 , ', '1 to ', '1 eq ', 'a intersect ',
+                '1 idiv ', 'attribute::', 'attribute( ', 'element( ', 'schema-element( ', 'processing-instruction( ']
+    out += ['abs( ', 'count( ', 'concat( 1 , ', 'reverse( ', 'string( ', 'a / ', 'a // ', '/ ', '// ', '@ ', 'child :: ', 'self :: ',
+            '$ ', 'a [ ', 'a [ 1 ] [ ', '( ', '- ', '1 + ', '1 = ', '1 and ', 'a | ', '1 div ', 'p : ', 'p:a / ', '* : ', 'text ( ',
+            'node ( ', 'processing-instruction ( ', 'id ( ', 'name ( ', 'position ( ', '']
+    return out
+
+
+def reuse_grid(ver):
+    probes = PROBES + (PROBES_31 if ver >= '3.1' else [])
+    if ver == '1.0':
+        probes = [p for p in probes if not p.startswith(('abs', 'reverse', '(:'))] + ['count(a)', "concat('a', 'b')"]
+    for pre in state_prefixes(ver):
+        for k, suf in enumerate(TOKEN_FAILURES):
+            # two probes per history, rotating, so that every probe follows every kind of failure
+            n = len(probes)
+            yield [pre + suf, probes[k % n], probes[(k + 3) % n], probes[(k + 5) % n]]
+
+
+# ---- namespace grid: every local name registered in any namespace x every other way of qualifying it ------------------
+def ns_grid(ver):
+    locs = sorted({n.split(':')[-1] for n, _ in function_names(ver)})
+    p = new_parser(ver)
+    uris = sorted({u for u in p.namespaces.values() if u})
+    quals = ['fn:', 'math:', 'map:', 'array:', 'xs:', 'p:', 'zz:', 'err:', ''] + ['Q{%s}' % u for u in uris] + ['Q{}', 'Q{urn:none}']
+    for loc in locs:
+        for q_ in quals:
+            name = q_ + loc
+            yield f'{name}()'
+            yield f'{name}(1)'
+            yield f"{name}('a', 2)"
+            yield f'{name}#0'
+            yield f'{name}#1'
+            yield f'{name}#2'
+            if ver >= '3.1':
+                yield f'1 => {name}()'
+                yield f"'a' => {name}(2)"
+
+
+# ---- regex grid ------------------------------------------------------------------------------------------------------
+RX_POOL = ['abc', 'C:\\data\\2024', '\\', '\\1', '\\d', '$1', '\\$', '$', '$0', '$9', '\\\\', 'a\\', '\\n', '\\p{L}', '\\p{', '(', '(a)(b)',
+           '[', '[a-', '{', 'a{2}', '*', 'a|b', '\\$1', '$a', '']
+RX_INPUTS = ['abc', 'C:\\data\\2024', '$1 (a)', '\\', 'a\\1b', '', 'aXbxc', '[{(']
+RX_FLAGS = [None, '', 'q', 'i', 'x', 's', 'm', 'qi', 'sx', 'z', 'qq']
+
+
+def _xq(v):
+    return "'" + v.replace("'", "''") + "'"
+
+
+def regex_grid(ver, dynamic):
+    """(string, vars) for fn:replace / tokenize / matches / analyze-string over RX_POOL in each string position x flags"""
+    import itertools
+
+    def render(fn, args):
+        if not dynamic:
+            return f'{fn}({", ".join(_xq(a) for a in args)})', None
+        names = (['i', 'pt', 'rp', 'fl'] if fn == 'replace' else ['i', 'pt', 'fl'])[:len(args)]
+        return f'{fn}({", ".join("$" + n for n in names)})', dict(zip(names, args))
+
+    def with_flags(fn, args, flags=RX_FLAGS):
+        for fl in flags:
+            yield render(fn, args + ([fl] if fl is not None else []))
+    for pat, rep in itertools.product(RX_POOL, RX_POOL):
+        yield from with_flags('replace', ['abc', pat, rep])
+        for inp in RX_INPUTS[1:3]:
+            yield from with_flags('replace', [inp, pat, rep], [None, 'q', 'qi'])
+    for inp in RX_POOL:
+        for pat, rep in itertools.product(['a', '\\\\', '(a)|(b)', '$'], ['x', '\\', '$1', 'C:\\data']):
+            yield from with_flags('replace', [inp, pat, rep], [None, 'q'])
+    for fn in ['tokenize', 'matches'] + (['analyze-string'] if ver >= '3.0' else []):
+        for inp, pat in itertools.product(RX_INPUTS, RX_POOL):
+            yield from with_flags(fn, [inp, pat])
+
+
 def _item(strings, source):
     return st.fixed_dictionaries({'s': strings, 'ctx': st.sampled_from(CTX_KINDS + ('root', 'root', 'doc')),
                                   'api': st.sampled_from(APIS + ('evaluate', 'select'))})
@@ -636,7 +824,7 @@ def _strategy(job):
 
 
 def _judge_for(chk):
-    if chk == 'reuse':
+    if chk in ('reuse', 'reusegrid'):
         return judge_reuse
     return lambda case, rec=None: judge_batch(case, rec, chk)
 
@@ -676,6 +864,15 @@ def jobs(tier, seed):
     for v, k in (('1.0', 1), ('2.0', 1), ('3.0', 2), ('3.1', 2)):
         for i in range(k):
             out.append({'check': 'opgrid', 'ver': v, 'part': i, 'parts': k})
+    for v, k in (('1.0', 1), ('2.0', 1), ('3.0', 1), ('3.1', 3)):
+        for i in range(k):
+            out.append({'check': 'reusegrid', 'ver': v, 'part': i, 'parts': k})
+    for v, k in (('3.0', 1), ('3.1', 2)):
+        for i in range(k):
+            out.append({'check': 'nsgrid', 'ver': v, 'part': i, 'parts': k})
+    for v, dyn, k in (('2.0', False, 1), ('3.1', False, 1), ('3.0', True, 1)):
+        for i in range(k):
+            out.append({'check': 'regexgrid', 'ver': v, 'dynamic': dyn, 'part': i, 'parts': k})
     if q:
         add('grammar', 3, 500, depth=3, batch=8)
         add('calls', 3, 500, batch=8)
@@ -699,26 +896,50 @@ def run_job(job, rec: Recorder):
     if chk == 'atheris':
         from vp.gen import c03_atheris
         return c03_atheris.run(job, rec)
-    if chk in ('callgrid', 'opgrid'):
+    if chk in ('callgrid', 'opgrid', 'nsgrid', 'regexgrid'):
         for case in _grid_cases(job):
             rec.discs_of(chk, case, judge_batch(case, rec, chk))
+        return
+    if chk == 'reusegrid':
+        for case in _grid_cases(job):
+            rec.discs_of(chk, case, judge_reuse(case, rec, 'reusegrid'))
         return
     jd = _judge_for(chk)
     hyp_collect(_strategy(job), lambda case: rec.discs_of(chk, case, jd(case, rec)), job['n'], job['seed'], rec)
 
 
 def _grid_cases(job):
-    grid = call_grid if job['check'] == 'callgrid' else op_grid
-    for idx, s in enumerate(grid(job['ver'])):
+    chk, ver = job['check'], job['ver']
+    if chk == 'reusegrid':
+        for idx, steps in enumerate(reuse_grid(ver)):
+            if idx % job['parts'] == job['part']:
+                yield {'ver': ver, 'steps': steps}
+        return
+    if chk == 'regexgrid':
+        for idx, (s, vars_) in enumerate(regex_grid(ver, job['dynamic'])):
+            if idx % job['parts'] == job['part']:
+                it = {'s': s, 'ctx': 'root', 'api': 'evaluate'}
+                if vars_:
+                    it['vars'] = vars_
+                yield {'ver': ver, 'items': [it]}
+        return
+    grid = {'callgrid': call_grid, 'opgrid': op_grid, 'nsgrid': ns_grid}[chk]
+    for idx, s in enumerate(grid(ver)):
         if idx % job['parts'] == job['part']:
-            yield {'ver': job['ver'], 'items': [{'s': s, 'ctx': 'root', 'api': 'evaluate'}]}
+            yield {'ver': ver, 'items': [{'s': s, 'ctx': 'root', 'api': 'evaluate'}]}
 
 
 def shrink_job(job, bucket, budget):
     chk = job['check']
     if chk == 'atheris':
         return None
-    if chk in ('callgrid', 'opgrid'):
+    if chk == 'reusegrid':
+        for case in _grid_cases(job):
+            for d in judge_reuse(case):
+                if d.bucket == bucket:
+                    return case, d
+        return None
+    if chk in ('callgrid', 'opgrid', 'nsgrid', 'regexgrid'):
         for case in _grid_cases(job):
             for d in judge_batch(case, None, chk):
                 if d.bucket == bucket:
